@@ -141,6 +141,11 @@ def add_subtract_with_compare(
     input_labels_a = list(input_labels_a)
     input_labels_b = list(input_labels_b)
 
+    if big_endian:
+        input_labels_a.reverse()
+        input_labels_b.reverse()
+
+    # pad the shorter (now little-endian) operand with zeros at its most significant end
     always_false = add_gate_from_tt(
         circuit, input_labels_a[0], input_labels_b[0], "0000"
     )
@@ -152,10 +157,6 @@ def add_subtract_with_compare(
     validate_equal_sizes(input_labels_a, input_labels_b)
 
     n = len(input_labels_a)
-
-    if big_endian:
-        input_labels_a.reverse()
-        input_labels_b.reverse()
 
     res = [PLACEHOLDER_STR] * n
     bal = [PLACEHOLDER_STR] * n
